@@ -10,16 +10,17 @@
 //!
 //!   Reset{id,fam,cfg:{maxLineLength,vendor,spacingStyle},doc,mlk,frag}
 //!                                   a new document; doc = what the contract observes of a text:
-//!                                   {dg, nt:[text..], nk:[kind..], cm:[text..], ln:[[n,c]..]}
+//!                                   {dg, nt:[text..], nk:[kind..], cm:[text..], ln:[[n,c]..], ld:[digest..]}
 //!                                   (dg digest of the text; nt text of the non-trivia tokens,
 //!                                   keywords ASCII-upper-cased; nk their kinds, for reports only;
 //!                                   cm comments and pragmas; ln per line the number of nt / cm
-//!                                   entries that start on it); mlk = kinds of the tokens that
+//!                                   entries that start on it; ld per line a digest of its text);
+//!                                   mlk = kinds of the tokens that
 //!                                   span lines; frag = the text holds an unterminated string
 //!   FormatDoc{via,on,edits}         via "lsp"|"web"; on "source"|"formatted" (= the result of the
 //!                                   previous FormatDoc on the source through the same path)
 //!   FormatRange{sl,sc,el,ec,edits}  FormatOnType{l,c,ch,edits}
-//!                                   edit = {ls,le,cut,nf,nl,cf,cl,nt,cm} (see Format.tla part 1)
+//!                                   edit = {ls,le,cut,nf,nl,cf,cl,nt,cm,ld} (see Format.tla part 1)
 //!   ApplyEdits{doc,overlap}         the editor applied the edits of the preceding request to the
 //!                                   text that request was made on
 //!   Died{during,via,status} / Failed{during,via,code,msg} / Hang{during,via,secs} / Panic{during,via,msg}
@@ -135,6 +136,22 @@ fn tokens(t: &str) -> Vec<Tk> {
     out
 }
 
+/// Identity of every line of a text (without its terminator).
+fn line_digests(t: &str, drop_final_empty: bool) -> Vec<String> {
+    let mut v: Vec<&str> = t.split('\n').collect();
+    if drop_final_empty && v.len() > 1 && v.last() == Some(&"") {
+        v.pop();
+    }
+    v.into_iter()
+        .map(|l| {
+            let l = l.strip_suffix('\r').unwrap_or(l);
+            let mut h = Sha256::new();
+            h.update(l.as_bytes());
+            h.finalize().iter().take(4).map(|b| format!("{b:02x}")).collect()
+        })
+        .collect()
+}
+
 fn observe_toks(t: &str, toks: &[Tk]) -> J {
     let nlines = line_starts(t).len();
     let mut ln = vec![[0u32, 0u32]; nlines];
@@ -147,6 +164,7 @@ fn observe_toks(t: &str, toks: &[Tk]) -> J {
         "nk": toks.iter().filter(|k| k.code).map(|k| k.kind.as_str()).collect::<Vec<_>>(),
         "cm": toks.iter().filter(|k| k.comment).map(|k| k.proj.as_str()).collect::<Vec<_>>(),
         "ln": ln,
+        "ld": line_digests(t, false),
     })
 }
 fn observe(t: &str) -> J {
@@ -244,6 +262,7 @@ fn apply_edits(t: &str, toks: &[Tk], edits: &[Edit]) -> (String, Vec<J>, bool) {
             "cut": cut, "nf": nf, "nl": nf - 1 + nin, "cf": cf, "cl": cf - 1 + cin,
             "nt": nt.iter().filter(|k| k.code).map(|k| k.proj.as_str()).collect::<Vec<_>>(),
             "cm": nt.iter().filter(|k| k.comment).map(|k| k.proj.as_str()).collect::<Vec<_>>(),
+            "ld": line_digests(&e.new, true),
         }));
     }
     out.push_str(&t[at..]);
@@ -750,7 +769,7 @@ fn plain(t: &str) -> bool {
 const ATOMS: &[&str] = &[
     "a", "b1", "Foo", "IF", "if", "THEN", "END_IF", "VAR", "END_VAR", "MOD", "NOT", "AND", "OR", "AT", "TRUE", "INT", "INT#", "T#", "D#",
     "TOD#", "1", "16", "5", "30", "1.5", "1.0E3", "16#FF", "2#1", "FF", "s", "ms", "T#5s", "T#1h30m", "D#2024-01-15", "TOD#12:30:00",
-    "DT#2024-01-15-12:30:00", "%IX0.5", "%MW1", "'s'", "'a,b'", "'a:=b'", "\"w\"", ";", ":", ",", ".", "..", "(", ")", "[", "]", "#", "^",
+    "DT#2024-01-15-12:30:00", "%IX0.5", "%MW1", "'s'", "'a,b'", "'a:=b'", "'a  b'", "\"w\"", ";", ":", ",", ".", "..", "(", ")", "[", "]", "#", "^",
     "@", ":=", "=>", "?=", "=", "<>", "<", "<=", ">", ">=", "+", "-", "*", "/", "**", "&", "?", "$", "'", "\"", "{", "}", "%", "(*c*)",
     "/*c*/", "//c", "{p}", "(*", "*)", "/*", "*/", "\u{e9}",
 ];
@@ -851,7 +870,7 @@ impl<'a> Synth<'a> {
     fn lit(&mut self) -> String {
         ["0", "1", "42", "1_000", "16#FF", "2#1010", "1.5", "2.5E-3", "TRUE", "FALSE", "T#10ms", "T#1h30m", "TIME#5s", "D#2024-01-15",
          "TOD#12:30:00", "DT#2024-01-15-12:30:00", "INT#5", "INT#-3", "REAL#1.5", "'text'", "'a, b: c := d'", "'(* no comment *)'",
-         "'it$'s'", "\"wide, str\"", "Color#Red", "%IX0.1"].choose(self.rng).unwrap().to_string()
+         "'it$'s'", "\"wide, str\"", "Color#Red", "%IX0.1", "'two  blanks'"].choose(self.rng).unwrap().to_string()
     }
     fn expr(&mut self, depth: u32) -> Vec<String> {
         let r = self.rng.gen_range(0..10);
@@ -959,7 +978,7 @@ impl<'a> Synth<'a> {
         }
         match self.rng.gen_range(0..14) {
             0 => line.push_str(" // note, with a comma"),
-            1 => line.push_str("  (* trailing := comment *)"),
+            1 => line.push_str("  (* trailing :=  comment *)"),
             2 => line.push_str(" {attribute 'x'}"),
             3 => line.push_str("   "),
             4 => line = format!("(* lead *) {line}"),
